@@ -213,6 +213,42 @@ def rename_map(code0, code1, sm=None):
                         vote(code0[i1 + a1 + k], code1[j1 + b1 + k])
     sa, sb = set(a), set(b)
 
+    # declarations that are the same statement up to the declared name (`let mut f = PathBuf::from("../../");` against
+    # `let mut full_path = PathBuf::from("../../");`) line up even when the block they sit in was moved
+    def decls(seq, other):
+        out = {}
+        for i, t in enumerate(seq):
+            if t != "let":
+                continue
+            j = i + 1
+            if j < len(seq) and seq[j] == "mut":
+                j += 1
+            if j + 1 >= len(seq) or seq[j + 1] not in ("=", ":") or seq[j] in other or not re.match(r"[a-z_][a-z0-9_]*$", seq[j]):
+                continue
+            name = seq[j]
+            depth = 0
+            k = j + 1
+            while k < len(seq):
+                if seq[k] in ("(", "[", "{"):
+                    depth += 1
+                elif seq[k] in (")", "]", "}"):
+                    if depth == 0:
+                        break
+                    depth -= 1
+                elif seq[k] == ";" and depth == 0:
+                    break
+                k += 1
+            key = tuple("\u00a7" if x == name else x for x in seq[i:k + 1])
+            if len(key) >= 6:
+                out.setdefault(key, []).append(name)
+        return out
+    da, db = decls(a, sb), decls(b, sa)
+    for key, xs_ in da.items():
+        ys_ = db.get(key, [])
+        if len(set(xs_)) == 1 and len(set(ys_)) == 1 and xs_[0] != ys_[0]:
+            votes.setdefault(xs_[0], {}).setdefault(ys_[0], 0)
+            votes[xs_[0]][ys_[0]] += 2
+
     def only_a_value(name, seq):
         """every occurrence of `name` is a plain value position: never a call / macro / path segment / field / struct name.
         Renaming is for LOCALS (let, parameter, closure and pattern bindings) only - a function the source now calls under another
@@ -303,6 +339,39 @@ def _in_struct_literal(toks, q):
         k -= 1
     return False
 
+
+
+# std methods with a vstd specification strong enough for the contracts here (used on the receivers this code base has)
+SPECIFIED_CALLS = {"len", "is_empty", "push", "unwrap", "is_some", "is_none", "is_ok", "is_err", "as_str", "to_string", "new", "clear",
+                   "Ok", "Err", "Some", "from", "into", "clone"}
+
+
+def call_names(toks):
+    """names called in exec code: `.name(`, `.name::<`, `path::name(`, `name(`, `name!(`; the bodies of local macro_rules
+    definitions are skipped (they are expanded at their call sites by D7)"""
+    out = set()
+    i = 0
+    n = len(toks)
+    while i < n:
+        t = toks[i]
+        if t.kind == "id" and t.text == "macro_rules" and i + 3 < n and toks[i + 1].text == "!":
+            j = i + 2
+            while j < n and toks[j].text not in ("{", "("):
+                j += 1
+            if j < n:
+                try:
+                    i = match_close(toks, j) + 1
+                    continue
+                except (ValueError, IndexError):
+                    pass
+        if t.kind == "id" and t.text not in KEYWORDS and i + 1 < n:
+            nx = toks[i + 1].text
+            if nx == "(" or (nx == "::" and i + 2 < n and toks[i + 2].text == "<") or (nx == "!" and i + 2 < n and toks[i + 2].text in ("(", "[", "{")):
+                prv = toks[i - 1].text if i > 0 else ""
+                if prv not in ("fn",):
+                    out.add(t.text)
+        i += 1
+    return out
 
 
 def _find_seq(hay, needle):
@@ -538,6 +607,7 @@ class Unit:
         loaded = self._load(self.spec_path, devs)
         lines = [x[0] for x in loaded]
         origin_of = [(x[1], x[2]) for x in loaded]
+        self.unit_fns = set(re.findall(r"\bfn\s+([A-Za-z_][A-Za-z0-9_]*)", "\n".join(lines)))
         out_lines = []
         linemap = []
         i = 0
@@ -724,6 +794,18 @@ class Unit:
                     and code1[k + 1].text == "!" and code1[k + 1].kind == "punct" and (k == 0 or code1[k - 1].text not in (".", "::")):
                 raise ExtractError("unsupported construct in %s: `%s!` without a rewrite rule (Verus accepts it without a specification)"
                                    % (" ".join(reg.path), code1[k].text))
+        # likewise any function, method or macro the source now calls that the contract's version of this item does not call and that
+        # is neither defined in the unit (a contract, a shim) nor a std method with a usable specification: Verus may accept the call
+        # and know nothing about its result
+        try:
+            tcode, _ = erase_ghost(ttoks)
+            known = call_names(tcode) | getattr(self, "unit_fns", set()) | SPECIFIED_CALLS
+            fresh = sorted(c for c in call_names(code1) if c not in known and not c[:1].isupper())
+        except (ValueError, IndexError):
+            fresh = []
+        if fresh and not os.environ.get("VERIF_ALLOW_NEW_CALLS"):
+            raise ExtractError("unsupported construct in %s: call of `%s` - not called by the contract's version of this item, not defined in the unit, "
+                               "not a std function with a usable specification" % (" ".join(reg.path), "`, `".join(fresh[:4])))
         # attributes in the template before the item keyword are annotations (the source's own
         # attributes are outside the extracted range: derives are re-stated by the template)
         lead = []
